@@ -502,8 +502,8 @@ def c09_deferred(obs, case=None):
     r = reqs[0]
     if r["out"][0] == "exc" or r["state"] != "running":
         return tags
-    if any(q["kind"] not in ("defer", "update") for q in obs.reqs):
-        other = True  # a second request of another kind may legitimately end or pause the plan earlier
+    if any(q["kind"] not in ("defer", "update", "suspend") for q in obs.reqs):
+        other = True  # a second request of another kind may legitimately end or pause the plan earlier (a suspension may not)
     else:
         other = False
     first = obs.calls[0]
@@ -543,6 +543,9 @@ def c09_deferred(obs, case=None):
                 tags.append("pending-deferred-pause-not-reported-after-plan-completed")
             if obs.followup is not None and obs.followup_deferred:
                 tags.append("deferred-pause-still-reported-after-the-next-plan-started")
+    # context: a suspension that takes effect while the checkpoint (sleeping before its hard pause) is in flight cancels it
+    if any(m.command == "_start_suspender" and i > 0 and obs.msgs[i - 1].command == "checkpoint" and obs.msg_deferred[i - 1] for i, m in enumerate(obs.msgs)):
+        tags = [t + "@checkpoint-interrupted-in-flight-by-a-suspension" for t in tags]
     return sorted(set(tags))
 
 
